@@ -55,12 +55,12 @@ def streams(tier, rng):
             for b in A:
                 for c in A:
                     cases.append(reggen.line(2, [a, b, c]))
-    yield {'name': 'bfs3bit', 'cases': cases, 'project': reggen.project, 'oracle': oracle,
+    yield {'name': 'bfs3bit', 'coqcheck': True, 'cases': cases, 'project': reggen.project, 'oracle': oracle,
            'nontrivial': lambda c, o: c if len(set(s[1][0] for s in reggen.parse_out(o))) > 1 else None}
     walks = [reggen.line(rng.choice([1, 2, 3, 4]), reggen.random_walk(rng, 40), noerr=(k % 5 == 4)) for k in range(1500 if tier == 'quick' else 40000)]
     # regression input of the fixed defect (observation 10): error first, enable later
     walks.append(reggen.line(2, ['P -113', reggen.cmd('*ESE 32', 'W:3:32'), reggen.cmd('*ESE 0', 'W:3:0')]))
-    yield {'name': 'walk16bit', 'cases': walks, 'project': reggen.project, 'oracle': oracle,
+    yield {'name': 'walk16bit', 'coqcheck': True, 'cases': walks, 'project': reggen.project, 'oracle': oracle,
            'nontrivial': lambda c, o: c if len(set(s[1][0] for s in reggen.parse_out(o))) > 1 else None}
     # the build without device-dependent error information: the queue code is configured differently (error.c), the registers must not notice
     yield {'name': 'walk16bit-noinfo', 'flavor': 'noinfo', 'cases': walks[::3] + [reggen.line(2, ['P -113', 'C']), reggen.line(2, ['P -113', 'L']), reggen.line(2, ['P -113', reggen.cmd('*CLS', 'K:CLS')])],
